@@ -178,6 +178,31 @@ def check(case, results):
                               "expected %r" % (d[0], d[1], X0[d[0], d[1]], m.x0[d[0], d[1]])})
                 else:
                     traj.euler_oracle(h, m, phys, v, stats, "C03")
+            elif kind == "tauleap":
+                # unflagged entries follow the law also next to flagged ones: exact support oracle per step, and the
+                # drift-direction score statistic pooled over the whole run (global_check)
+                from .c07 import analyse_tauleap
+                seq = [h.obs0] + [o for (kd, ret, o) in h.actions if kd == "iterate"]
+                keep = [seq[0]]
+                for o in seq[1:]:
+                    if o.t != keep[-1].t:
+                        keep.append(o)
+                if len(keep) >= 2:
+                    ft = si.factor(phys["eu"], si.DIM_TIME)
+                    acc = {"steps": 0, "steps_from_negative_state_excluded": 0, "negative_entry_after_step": 0,
+                           "sc_r_num": 0.0, "sc_r_den": 0.0, "sc_d_num": 0.0, "sc_d_den": 0.0, "sc_m_num": 0.0, "sc_m_den": 0.0,
+                           "fn_mean_num": [0.0, 0.0], "fn_mean_den": [0.0, 0.0], "fn_var_num": [0.0, 0.0], "fn_var_den": [0.0, 0.0]}
+                    for k_ in ("tl_mean_num", "tl_mean_den", "tl_var_num", "tl_var_den"):
+                        acc[k_] = np.zeros((m.ns, m.nc))
+                    vv = []
+                    analyse_tauleap(m, np.array([o.t for o in keep]) * ft, np.array([o.x for o in keep]), acc, vv, {})
+                    for x_ in vv:
+                        x_["oracle"] = x_["oracle"].replace("C07.", "C03.")
+                    v.extend(vv)
+                    stats["tauleap_steps_checked"] = stats.get("tauleap_steps_checked", 0) + acc["steps"]
+                    gg = stats.setdefault("g", {"sc_m_num": 0.0, "sc_m_den": 0.0})
+                    gg["sc_m_num"] += acc["sc_m_num"]
+                    gg["sc_m_den"] += acc["sc_m_den"]
             elif kind == "gillespie":
                 # every observed step must be the *masked* effect of an event that is possible in the state before it:
                 # a flagged entry is exempt from the change, its partner is not (source and sink for its neighbours)
@@ -215,6 +240,21 @@ def check(case, results):
         viol.extend(v)
     stats["nontrivial"] = nontrivial
     return viol, stats
+
+
+def global_check(total):
+    import math
+    out, info = [], {}
+    g = total.get("g") or {}
+    if g.get("sc_m_den", 0) > 100:
+        z = g["sc_m_num"] / math.sqrt(g["sc_m_den"])
+        info["pooled_tauleap_drift_direction_z"] = z
+        if abs(z) > 6.5:
+            out.append({"class": "violation", "oracle": "C03.pooled-tauleap-drift",
+                        "detail": "tau-leap runs with chemostat maps: increments of unflagged entries projected on the direction of "
+                                  "their expected change, pooled over all cases: z=%.1f (unflagged entries do not evolve as the rate "
+                                  "law prescribes)" % z})
+    return out, info
 
 
 def describe(case):
